@@ -92,6 +92,9 @@ class Executor:
         self.max_paths = max_paths
         self.inline_depth = inline_depth
         self.stubs = {}              # (module, qualname) -> fn(ex, args, kwargs, call_node)
+        self.atoms = None            # when a dict: opaque boolean facts about symbolic strings (regex matches, membership in word sets, str predicates) become fresh
+                                     # Bool atoms recorded here as id -> (description, argument); the caller interprets path conditions over them
+        self.self_class = None       # class defining the method under contract (fallback for members of an untyped `self`)
         self.recursion_ok = {}       # substring of a qualname -> max depth: structural recursion over a concrete (finite) argument graph is inlined
         self.method_stubs = {}       # attr name -> fn(ex, self_obj, args, kwargs)  (for opaque receivers)
         self.field_oracle = None     # fn(ex, obj, attr) -> value | raise KeyError
@@ -486,6 +489,18 @@ class Executor:
                     if len(vals) == 1:
                         return vals[0]
                     raise Unsupported(f'class attribute {attr} on class-set {obj}')
+            if obj.cls_set is None and obj.label == 'self' and getattr(self, 'self_class', None) is not None and attr not in obj.fields:
+                # the receiver of the method under contract was left untyped by the contract: members the contract does not describe (typically a helper
+                # method extracted from the verified one, a class-level constant) are resolved on the class that defines the verified method
+                K = self.self_class
+                dv = self._init_default(K, attr)
+                if dv is not _MISSING:
+                    return dv
+                if hasattr(K, attr) and not isinstance(getattr(type(K), attr, None), property):
+                    import inspect as _inspect
+                    raw = _inspect.getattr_static(K, attr)
+                    if not isinstance(raw, property):
+                        return self.class_attr(obj, K, attr)
             if self.field_oracle is not None and obj.prov != 'fresh' and attr not in obj.frozen_missing:
                 try:
                     v = self.field_oracle(self, obj, attr)
@@ -538,6 +553,43 @@ class Executor:
             return v
         except AttributeError:
             raise SymRaise(AttributeError, (f'{obj!r}.{attr}',), origin=self.where(node))
+
+    def _init_default(self, K, attr):
+        """value of an instance attribute that __init__ sets to a literal or to a parameter with a literal default (an option nobody passes)"""
+        import inspect as _inspect, textwrap as _tw
+        cache = self.__dict__.setdefault('_init_defaults', {})
+        if K not in cache:
+            vals = {}
+            try:
+                fn = ast.parse(_tw.dedent(_inspect.getsource(K.__init__))).body[0]
+                a = fn.args
+                pos = a.posonlyargs + a.args
+                dflt = {p.arg: d for p, d in zip(pos[len(pos) - len(a.defaults):], a.defaults)}
+                dflt.update({p.arg: d for p, d in zip(a.kwonlyargs, a.kw_defaults) if d is not None})
+                for n in fn.body:
+                    if isinstance(n, ast.Assign) and len(n.targets) == 1 and isinstance(n.targets[0], ast.Attribute) and isinstance(n.targets[0].value, ast.Name) \
+                            and n.targets[0].value.id == 'self':
+                        v = n.value
+                        if isinstance(v, ast.Name) and v.id in dflt:
+                            v = dflt[v.id]
+                        try:
+                            vals[n.targets[0].attr] = ast.literal_eval(v)
+                        except Exception:
+                            pass
+            except Exception:
+                pass
+            cache[K] = vals
+        return cache[K].get(attr, _MISSING)
+
+    def new_atom(self, desc, arg):
+        key = (desc, arg.t.sexpr())
+        for k, (d_, a_, b_) in self.atoms.items():
+            if (d_, a_.t.sexpr()) == key:
+                return SymVal('bool', b_)
+        k = len(self.atoms)
+        b = z3.Bool(f'atom#{k}')
+        self.atoms[k] = (desc, arg, b)
+        return SymVal('bool', b)
 
     def class_attr(self, obj, cls, attr):
         for k in cls.__mro__:
@@ -675,7 +727,7 @@ class Executor:
         if len(self.stack) > self.inline_depth + 8:
             raise Unsupported(f'inline depth exceeded at {key}')
         depth = sum(1 for k, _ in self.stack if k == key)
-        if depth and not (getattr(clo, 'allow_recursion', False) or (depth < 3 and key[1].endswith(('__deepcopy__', '__copy__', '__init__', 'copy')))
+        if depth and not (getattr(clo, 'allow_recursion', False) or (depth < 3 and (key[1].endswith(('__deepcopy__', '__copy__', '__init__', 'copy')) or 'copy' in key[1].split('.')[-1].lower()))
                           or any(sub in key[1] and depth < d for sub, d in self.recursion_ok.items())):
             raise Unsupported(f'recursion without contract: {key}')
         fn = clo.node
@@ -798,6 +850,18 @@ class Executor:
         return m(st, env)
 
     def x_Expr(self, st, env):
+        v = st.value
+        # `xs.extend(<generator / list comprehension with one for>)` is the loop `for t in it: [if c:] xs.append(elt)` (same order, same effects)
+        if isinstance(v, ast.Call) and isinstance(v.func, ast.Attribute) and v.func.attr == 'extend' and len(v.args) == 1 and not v.keywords \
+                and isinstance(v.args[0], (ast.GeneratorExp, ast.ListComp)) and len(v.args[0].generators) == 1 and not v.args[0].generators[0].is_async:
+            g = v.args[0].generators[0]
+            body = ast.Expr(value=ast.Call(func=ast.Attribute(value=v.func.value, attr='append', ctx=ast.Load()), args=[v.args[0].elt], keywords=[]))
+            for c in reversed(g.ifs):
+                body = ast.If(test=c, body=[body], orelse=[])
+            loop = ast.For(target=g.target, iter=g.iter, body=[body], orelse=[])
+            ast.copy_location(loop, st)
+            ast.fix_missing_locations(loop)
+            return self.exec_stmt(loop, env) if hasattr(self, 'exec_stmt') else self.exec_block([loop], env)
         self.eval(st.value, env)
 
     def x_Pass(self, st, env):
@@ -1004,6 +1068,8 @@ class Executor:
                 or isinstance(it, (type({}.keys()), type({}.values()), enumerate, zip, map, reversed, filter)) \
                 or inspect.isgenerator(it) or type(it).__name__ in ('list_iterator', 'tuple_iterator', 'dict_itemiterator', 'dict_keyiterator'):
             return list(it)
+        if isinstance(it, ModelObj) and hasattr(it, 'm_iter'):
+            return list(it.m_iter(self))
         if it is None:
             raise SymRaise(TypeError, ("'NoneType' object is not iterable",), origin=self.where(node))
         if isinstance(it, SymObj) and self.is_none(it):
@@ -1052,6 +1118,30 @@ class Executor:
         return tuple(self.eval_elts(e.elts, env))
 
     def e_List(self, e, env):
+        if any(isinstance(x, ast.Starred) for x in e.elts):
+            # [a, *xs, b] with a symbolic sequence: the same value as [a] + xs + [b]
+            vals = [(isinstance(x, ast.Starred), self.eval(x.value if isinstance(x, ast.Starred) else x, env)) for x in e.elts]
+            if any(st and isinstance(v, SymSeq) for st, v in vals):
+                from . import models
+                acc = []
+                for st, v in vals:
+                    piece = v if st else [v]
+                    if st and not isinstance(v, (SymSeq, list, tuple)):
+                        piece = list(self.iterate_concrete(v, e))
+                    if isinstance(piece, tuple):
+                        piece = list(piece)
+                    if isinstance(acc, list) and isinstance(piece, list):
+                        acc = acc + piece
+                    else:
+                        acc = models.binop(self, ast.Add(), acc, piece, e)
+                return acc
+            out = []
+            for st, v in vals:
+                if st:
+                    out.extend(self.iterate_concrete(v, e))
+                else:
+                    out.append(v)
+            return out
         return self.eval_elts(e.elts, env)
 
     def e_Set(self, e, env):
@@ -1204,6 +1294,26 @@ class Executor:
             if defcls is None:
                 defcls = self.defining_class()
             return SuperProxy(self_obj, defcls)
+        # any(E for T in I) / all(E for T in I): the loop `for T in I: if [not] E: return True/False` followed by `return False/True`
+        if isinstance(e.func, ast.Name) and e.func.id in ('any', 'all') and len(e.args) == 1 and not e.keywords and isinstance(e.args[0], (ast.GeneratorExp, ast.ListComp)) \
+                and len(e.args[0].generators) == 1 and not e.args[0].generators[0].is_async:
+            try:
+                shadowed = env.lookup(e.func.id) is not None
+            except KeyError:
+                shadowed = False
+            if not shadowed:
+                g = e.args[0].generators[0]
+                is_any = e.func.id == 'any'
+                test = e.args[0].elt if is_any else ast.UnaryOp(op=ast.Not(), operand=e.args[0].elt)
+                inner = ast.If(test=test, body=[ast.Return(value=ast.Constant(value=is_any))], orelse=[])
+                for c in reversed(g.ifs):
+                    inner = ast.If(test=c, body=[inner], orelse=[])
+                fd = ast.FunctionDef(name=f'<{e.func.id}>', args=ast.arguments(posonlyargs=[], args=[], kwonlyargs=[], kw_defaults=[], defaults=[]),
+                                     body=[ast.For(target=g.target, iter=g.iter, body=[inner], orelse=[]), ast.Return(value=ast.Constant(value=not is_any))], decorator_list=[])
+                ast.copy_location(fd, e)
+                ast.fix_missing_locations(fd)
+                clo = Closure(fd, env, env.module, f'<{e.func.id}>@{getattr(e, "lineno", 0)}')
+                return self.call_closure(clo, [], {}, e)
         f = self.eval(e.func, env)
         args = []
         for a in e.args:
